@@ -217,20 +217,18 @@ func runSupK4(c *Ctx) {
 						nodeTerm = "terminated:" + e.Reason
 					}
 				}
-				if !cfg.KO || nodeTerm != "" || simTerm != "" {
-					// exits sent at once: the children terminate concurrently, only the set is determined
-					sort.Strings(nStops)
-				}
+				// Only the SET of stopped children is compared: the Terminate callback, where the trace entry is written,
+				// runs after node.unregisterProcess has sent the exit signals (node/process.go), so the supervisor may already
+				// have moved on to the next child (KeepOrder) when the entry of the previous one is recorded.
+				sort.Strings(nStops)
 				return fmt.Sprintf("starts=%v stops=%v sup=%q", nStarts, nStops, nodeTerm)
 			}
-			if !cfg.KO || simTerm != "" {
-				sort.Strings(sStops)
-			}
+			sort.Strings(sStops)
 			simS := fmt.Sprintf("starts=%v stops=%v sup=%q", sStarts, sStops, simTerm)
 			nodeS := view(after)
-			for retry := 0; retry < 3 && nodeS != simS; retry++ {
+			for retry := 0; retry < 10 && nodeS != simS; retry++ {
 				// not a verdict yet: the node may simply not be quiescent (loaded machine); wait and look again
-				time.Sleep(300 * time.Millisecond)
+				time.Sleep(500 * time.Millisecond)
 				r.Count("k4.waited-again")
 				nodeS = view(k4Quiesce(sc))
 			}
